@@ -21,7 +21,8 @@ PARTIAL = ['C07_total_given_parse is relative to termination of the tolerant par
 REFUTED = []
 CASE_TIMEOUT = 10.0
 SHAPES = ['%s', '%s{}', '%s{a}', '%s{a}{b}', '%s[o]{a}', '%s*{a}', '%s a', '%s\n', '\\textbf%s', '\\hat%s', '\\frac%s%s', '$%s$',
-          '%s{a}{b}{c}{d}{e}', '{%s}', '%s[', '%s{', '\\section{%s}', '%s%%c\n{a}', '%s}', '\\sqrt[%s]{a}', '%s[]', '\\\'%s']
+          '%s{a}{b}{c}{d}{e}', '{%s}', '%s[', '%s{', '\\section{%s}', '%s%%c\n{a}', '%s}', '\\sqrt[%s]{a}', '%s[]', '\\\'%s',
+          '%s\n\n', '%s \n \n ', '%s\n\n}', '%s%s', '%s{a} x %s{b}', '%s\r\n']     # blank line / end of input after the name; the same name twice
 ENV_SHAPES = ['\\begin{%s}\\end{%s}', '\\begin{%s}a\\end{%s}', '\\begin{%s}', '\\begin{%s}{c}a&b\\\\c\\end{%s}',
               '\\begin{%s}[o]{a} x \\end{%s}', '\\textbf\\begin{%s}', '\\begin{%s}&\\\\\\end{%s}', '\\begin{%s}$\\end{%s}',
               '\\begin{%s} \\item a \\end{%s}', '$\\begin{%s}x\\end{%s}$']
@@ -73,7 +74,7 @@ def gen_cases(seed, tier):
     cases = []
     for n in names:
         m = '\\' + n
-        shapes = SHAPES if not quick else rnd.sample(SHAPES, 6)
+        shapes = SHAPES if not quick else rnd.sample(SHAPES[:-6], 6) + SHAPES[-6:]
         for sh in shapes:
             cases.append(_case(sh.replace('%s', m), _opts(rnd), 'name-shape'))
     for e in envs:
@@ -82,7 +83,7 @@ def gen_cases(seed, tier):
     for s in docgen.exhaustive(docgen.SYM_CORE + docgen.SYM_MULTI, 2):
         cases.append(_case(s, _opts(rnd), 'exhaustive'))
     toks = (docgen.SYM_CORE + docgen.SYM_MULTI + docgen.SYM_DEFAULT_EXTRA + ['\\' + n for n in rnd.sample(names, 80)]
-            + ['\\begin{%s}' % e for e in envs] + ['\\end{%s}' % e for e in envs])
+            + ['\\begin{%s}' % e for e in envs] + ['\\end{%s}' % e for e in envs] + ['\\' + e for e in rnd.sample(envs, 6)])
     for _ in range(3000 if quick else 40000):
         cases.append(_case(docgen.soup(rnd, toks, 1, 10), _opts(rnd), 'soup'))
     for _ in range(1500 if quick else 20000):
